@@ -1210,6 +1210,7 @@ impl Server {
         // connection's database, the commands queued after it run there, and the selection stays after EXEC.
         let mut results = Vec::new();
         let mut db_index = db_index;
+        let mut pushed_keys: Vec<(usize, Vec<u8>)> = Vec::new();
         for cmd_parts in commands_to_execute.iter() {
             let is_select = matches!(cmd_parts.first(), Some(RespFrame::BulkString(Some(name)))
                 if String::from_utf8_lossy(name).to_uppercase() == "SELECT");
@@ -1220,6 +1221,12 @@ impl Server {
                 }
                 reply
             } else {
+                if let (Some(RespFrame::BulkString(Some(name))), Some(RespFrame::BulkString(Some(key)))) = (cmd_parts.get(0), cmd_parts.get(1)) {
+                    let name = String::from_utf8_lossy(name).to_uppercase();
+                    if name == "LPUSH" || name == "RPUSH" {
+                        pushed_keys.push((db_index, key.as_ref().clone()));
+                    }
+                }
                 self.process_command_parts(&cmd_parts, db_index)
             };
             match outcome {
@@ -1230,7 +1237,30 @@ impl Server {
             }
         }
         
+        // The transaction is over: serve the clients blocked on the keys it pushed to
+        for (db, key) in pushed_keys {
+            self.serve_key(db, &key);
+        }
+        
         Ok(RespFrame::Array(Some(results)))
+    }
+    
+    /// Serve the clients blocked on a key while it has both a waiter and an element
+    fn serve_key(&self, db: usize, key: &[u8]) {
+        loop {
+            if !self.blocking_manager.has_blocked_clients(db, key) {
+                break;
+            }
+            match self.storage.llen(db, key) {
+                Ok(n) if n > 0 => {}
+                _ => break,
+            }
+            self.blocking_manager.notify_key_ready(db, key);
+            if let Err(e) = self.process_wakeups() {
+                eprintln!("Error processing wake-ups: {}", e);
+                break;
+            }
+        }
     }
     
     /// Verification hooks over the wire (feature `verif` only): see src/verif.rs
@@ -1450,9 +1480,11 @@ impl Server {
                 if let Ok(RespFrame::Integer(count)) = &result {
                     if *count > 0 && parts.len() >= 3 {
                         if let RespFrame::BulkString(Some(key_bytes)) = &parts[1] {
-                            // One wake-up per pushed element, while clients are waiting on the key
+                            // One wake-up per pushed element, while clients are waiting on the key.
+                            // Not inside EXEC (conn_id == 0): a transaction is one indivisible step, the
+                            // clients blocked on the keys it pushed to are served by handle_exec afterwards
                             for _ in 0..(parts.len() - 2) {
-                                if !self.blocking_manager.has_blocked_clients(db, key_bytes) {
+                                if conn_id == 0 || !self.blocking_manager.has_blocked_clients(db, key_bytes) {
                                     break;
                                 }
                                 self.blocking_manager.notify_key_ready(db, key_bytes);
@@ -1470,9 +1502,11 @@ impl Server {
                 if let Ok(RespFrame::Integer(count)) = &result {
                     if *count > 0 && parts.len() >= 3 {
                         if let RespFrame::BulkString(Some(key_bytes)) = &parts[1] {
-                            // One wake-up per pushed element, while clients are waiting on the key
+                            // One wake-up per pushed element, while clients are waiting on the key.
+                            // Not inside EXEC (conn_id == 0): a transaction is one indivisible step, the
+                            // clients blocked on the keys it pushed to are served by handle_exec afterwards
                             for _ in 0..(parts.len() - 2) {
-                                if !self.blocking_manager.has_blocked_clients(db, key_bytes) {
+                                if conn_id == 0 || !self.blocking_manager.has_blocked_clients(db, key_bytes) {
                                     break;
                                 }
                                 self.blocking_manager.notify_key_ready(db, key_bytes);
